@@ -14,10 +14,12 @@ import Rooc.Proofs.Field
 import Rooc.Proofs.DisplayPratt
 import Rooc.Proofs.DisplayText
 import Rooc.Proofs.DisplayParse
+import Rooc.Proofs.DisplayProgram
+import Rooc.Proofs.DisplayProgramWitness
 import Mathlib.Data.Rat.Floor
 import Mathlib.Tactic.Linarith
 namespace Rooc.Props.C12
-open Rooc Rooc.Display Arith
+open Rooc Rooc.Display Rooc.Display.Witness Arith
 set_option linter.unusedSectionVars false
 
 variable {K : Type} [Field K] [LinearOrder K] [IsStrictOrderedRing K] [FloorRing K]
@@ -153,6 +155,46 @@ example : Frag (fun _ : Ext K => "3") (fun _ => (Ext.fin 0 : Ext K))
 example : displayExp (fun _ : Int => "?") (.bin .add (.and [.var "b", .var "d"]) (.var "x")) = "(b and d) + x" := by
   simp [displayExp, showE, logicWrap, joinWith, logicOperand, isLeaf, binOpStr]
 
+
+/-! ### whole rendered models -/
+
+/-- **`parse (display model) = model`** (`impl Display for Model`): the tokens of the rendered compiled model —
+objective line, `s.t.`, one line per constraint, the `define` block grouped by printed type — are read by the
+program-level parser model (C11: `problem`, `objective`, `constraint_list`, `domains_declaration`) as the
+`PreModel` `modelProgram`: same objective kind, the constraints `toPConstraint c` in order, the declarations as
+printed; and `into_exp` maps the objective and both sides of every constraint back to the model's own
+expressions.  (At least one constraint: an empty `s.t.` section is rejected by the grammar — known finding
+`C12-empty-st`.  That the lexer model cuts the rendered TEXT into exactly `modelToks` is checked per case by the
+driver: the program-level lexing lemmas — newline, indentation — are not proved.) -/
+theorem parse_display_model {α : Type} [Arith α] (tok : α → String) (numOf : String → α) (m : Model α)
+    (h : ModelFrag tok numOf m) (hc : m.constraints ≠ []) :
+    Syntax.parseProgram (modelToks tok m) = .ok (modelProgram tok m)
+    ∧ (modelProgram tok m).constraints = m.constraints.map (toPConstraint tok)
+    ∧ (m.optType ≠ .satisfy → intoExp numOf (modelProgram tok m).objective = some m.objective)
+    ∧ (∀ c ∈ m.constraints, intoExp numOf (toPConstraint tok c).lhs = some c.lhs
+        ∧ (c.isAssert = false → intoExp numOf (toPConstraint tok c).rhs = some c.rhs)) := by
+  refine ⟨parseProgram_modelToks tok numOf m h hc, ?_, ?_, ?_⟩
+  · simp [modelProgram, progOf, constraintLine_pc]
+  · intro hs
+    rcases h.obj_ok with ho | ho
+    · exact absurd ho hs
+    · cases hop : m.optType with
+      | satisfy => exact absurd hop hs
+      | min => simpa [modelProgram, progOf, hop] using intoExp_toP tok numOf m.objective ho
+      | max => simpa [modelProgram, progOf, hop] using intoExp_toP tok numOf m.objective ho
+  · intro c hcm
+    exact (parse_display_constraint tok numOf c (h.cons_ok c hcm)).2.2
+
+/-- **`parse (display linear model) = linear model`, syntax** (`impl Display for LinearModel`): whenever the
+rendering succeeds (`linToks` is `some`: no coefficient beyond the variable list), its tokens — `format_var`
+terms with implicit products `3x`, the objective offset, `name:` prefixes, signed right sides, the `define`
+block — are read by the program-level parser model as the `PreModel` `linProgram`.  Hypotheses (`LinFrag`):
+names are not keywords and digit-string number tokens fit `i64`; at least one row. -/
+theorem parse_display_lin {α : Type} [Arith α] (tok : α → String) (lm : LinModel α) (h : LinFrag tok lm)
+    (hrows : lm.rows ≠ []) (ts : List Syntax.Tok) (hts : linToks tok lm = some ts) :
+    ∃ pm, linProgram tok lm = some pm ∧ Syntax.parseProgram ts = .ok pm :=
+  parseProgram_linToks tok lm h hrows ts hts
+
 /-! ### the sign of a rendered term -/
 
 /-- **A rendered term denotes its coefficient**: for every coefficient (finite or not) the sign and
@@ -179,5 +221,124 @@ theorem term_roundtrip (v : Ext K) : termValue (formatVarParts v) = v := by
 example : (formatVarParts (Ext.fin (-(1 / 1000000 : K)) : Ext K)).1 = true := by
   have : (-(1 / 1000000 : K)) < 0 := by norm_num
   simp [formatVarParts, Arith.lt, Ext.lt, Arith.zero, Arith.ofInt, this]
+
+/-! ### the rendered linear model, read back -/
+
+/-- **`parse (display linear model) = linear model`, meaning**: read back term by term (`readSum`: variable,
+sign times magnitude; `readSigned`), the constraints of `linProgram` are the rows of the linear model — same
+name, same comparison, for every non-zero coefficient the same variable with the same coefficient and nothing
+else, the same right side.  Over the exact extended numbers; `hback`: the number reader maps each printed
+magnitude (of a non-zero coefficient other than ±1, of a non-zero right side) back to its value. -/
+theorem read_display_lin (tok : Ext K → String) (numOf : String → Ext K) (lm : LinModel (Ext K)) (pm : Syntax.PModel)
+    (hpm : linProgram tok lm = some pm)
+    (hback : ∀ r ∈ lm.rows,
+        (∀ c ∈ r.coeffs, isZero c = false → ∀ x, (formatVarParts c).2 = some x → NumBack tok numOf x)
+        ∧ (isZero r.rhs = false → NumBack tok numOf (if Arith.lt r.rhs zero then Arith.abs r.rhs else r.rhs))) :
+    List.Forall₂ (RowReads numOf lm.vars) lm.rows (pm.constraints) := by
+  unfold linProgram at hpm
+  simp only [Option.map_eq_some_iff] at hpm
+  obtain ⟨p, hp, rfl⟩ := hpm
+  unfold linParts at hp
+  split at hp
+  · rename_i lines ots hlines hots
+    simp only [Option.some.injEq] at hp
+    subst hp
+    simp only [progOf]
+    rw [List.forall₂_map_right_iff]
+    refine forall2_allSome _ _ _ _ ?_ hlines
+    intro r hr l hl
+    unfold rowLineOf at hl
+    simp only [Option.map_eq_some_iff] at hl
+    obtain ⟨ts, hts, rfl⟩ := hl
+    obtain ⟨hc, hrhs⟩ := hback r hr
+    refine ⟨?_, rfl, rfl, ⟨ts, hts, ?_⟩, ?_⟩
+    · simp only [Line.pc]; split <;> rfl
+    · have hb : TermsBack tok numOf ts := by
+        intro q hq x hx
+        exact hc _ (termList_mem r.coeffs lm.vars ts hts q hq).2 (termList_nonzero r.coeffs lm.vars ts hts q hq) x hx
+      have := readSum_linExp tok numOf ts hb
+      simp only [Line.pc]
+      rw [this]
+      congr 1
+      conv_rhs => rw [← List.map_id ts]
+      apply List.map_congr_left
+      intro q _
+      rw [term_roundtrip]
+      rfl
+    · simpa [Line.pc, tailRhs] using readSigned_rhs tok numOf r.rhs hrhs
+  · cases hp
+
+/-! ### non-vacuity of the whole-model theorems -/
+
+/-- non-vacuity of `parse_display_lin`: the witness `exLin` (`min 3x - y + 3  s.t.  cap: - x + 3y <= 3 ; 3y >= 0`,
+`x as Real`, `y as IntegerRange(-2, 7)`) satisfies the hypotheses, so its tokens are read back as its `linProgram` -/
+example : ∃ ts pm, linToks (fun _ : Ext K => "3") exLin = some ts ∧ linProgram (fun _ : Ext K => "3") exLin = some pm
+    ∧ Syntax.parseProgram ts = .ok pm := by
+  obtain ⟨ts, hts⟩ := Option.isSome_iff_exists.1 (exLin_some (K := K))
+  obtain ⟨pm, h1, h2⟩ := parse_display_lin _ exLin exLin_frag (by simp [exLin]) ts hts
+  exact ⟨ts, pm, hts, h1, h2⟩
+
+/-- non-vacuity of `read_display_lin`: the hypothesis `hback` holds for the witness -/
+example (numOf : String → Ext K) : ∀ r ∈ (exLin : LinModel (Ext K)).rows,
+        (∀ c ∈ r.coeffs, isZero c = false → ∀ x, (formatVarParts c).2 = some x → NumBack (fun _ : Ext K => "3") numOf x)
+        ∧ (isZero r.rhs = false → NumBack (fun _ : Ext K => "3") numOf (if Arith.lt r.rhs zero then Arith.abs r.rhs else r.rhs)) := by
+  have h30 : ¬ (3 : K) < 0 := by norm_num
+  intro r hr
+  simp [exLin] at hr
+  rcases hr with rfl | rfl
+  · refine ⟨?_, ?_⟩
+    · intro c hc
+      simp at hc
+      exact back3 numOf c (by rcases hc with rfl | rfl <;> simp)
+    · intro _
+      simpa [Arith.lt, Ext.lt, Arith.zero, Arith.ofInt, h30] using numBack3 numOf
+  · refine ⟨?_, ?_⟩
+    · intro c hc
+      simp at hc
+      exact back3 numOf c (by rcases hc with rfl | rfl <;> simp)
+    · intro hz
+      simp [isZero, Arith.eq, Ext.eq, Arith.zero, Arith.ofInt] at hz
+
+/-- non-vacuity of `parse_display_model`: `max x + 3  s.t.  cap: x <= 3 ; b implies d` with a `define` block -/
+example : ModelFrag (fun _ : Ext K => "3") (fun _ => (Ext.fin 0 : Ext K)) exModel ∧ (exModel : Model (Ext K)).constraints ≠ [] := by
+  have hn : NumOk (fun _ : Ext K => "3") (fun _ => (Ext.fin 0 : Ext K)) (.fin 3) :=
+    Or.inl ⟨by show isIntText "3" = true; decide, by show Syntax.digitsToNat "3".toList ≤ Syntax.i64Max; decide,
+      by show Arith.ofInt ((Syntax.digitsToNat "3".toList : Nat) : Int) = (Ext.fin 3 : Ext K)
+         have : Syntax.digitsToNat ['3'] = 3 := by decide
+         simp [Arith.ofInt, this]⟩
+  have hx : Syntax.Proofs.plainWord "x".toList = true ∧ Syntax.isKeyword "x" = false := ⟨by decide, by decide⟩
+  have hb : Syntax.Proofs.plainWord "b".toList = true ∧ Syntax.isKeyword "b" = false := ⟨by decide, by decide⟩
+  have hd : Syntax.Proofs.plainWord "d".toList = true ∧ Syntax.isKeyword "d" = false := ⟨by decide, by decide⟩
+  have hcap : Syntax.Proofs.plainWord "cap".toList = true ∧ Syntax.isKeyword "cap" = false := ⟨by decide, by decide⟩
+  refine ⟨⟨Or.inr ⟨rfl, hx, hn⟩, ?_, ?_, ?_, ?_⟩, by simp [exModel]⟩
+  · intro c hc
+    simp [exModel] at hc
+    rcases hc with rfl | rfl
+    · exact ⟨Or.inr hcap, hx, Or.inr hn⟩
+    · exact ⟨Or.inl rfl, ⟨hb, hd⟩, Or.inl rfl⟩
+  · intro d hdm
+    simp [exModel] at hdm
+    rcases hdm with rfl | rfl | rfl
+    · exact ⟨hx.2, ⟨intOk3, intOk3⟩, ⟨intOk3, intOk3⟩⟩
+    · exact ⟨hb.2, trivial⟩
+    · exact ⟨hd.2, trivial⟩
+  · -- no line begins with a word that reads `for`
+    intro c hc
+    simp [exModel] at hc
+    rcases hc with rfl | rfl
+    · refine ⟨by show Syntax.lowerWord "cap" ≠ "for"; decide, ?_⟩
+      intro w hw
+      simp only [toP, Syntax.Proofs.headName, Option.some.injEq] at hw
+      subst hw; decide
+    · refine ⟨by show Syntax.lowerWord "" ≠ "for"; decide, ?_⟩
+      intro w hw
+      simp only [toP, Syntax.Proofs.headName, Option.some.injEq] at hw
+      subst hw; decide
+  · intro d hdm
+    simp [exModel] at hdm
+    rcases hdm with rfl | rfl | rfl
+    · show Syntax.lowerWord "x" ≠ "for"; decide
+    · show Syntax.lowerWord "b" ≠ "for"; decide
+    · show Syntax.lowerWord "d" ≠ "for"; decide
 
 end Rooc.Props.C12
